@@ -83,6 +83,32 @@ def build(name):
             number_of_servers=[2, 1],
             routing=[[0.0, 0.5], [0.0, 0.0]],
             service_disciplines=[ciw.disciplines.SIRO, ciw.disciplines.LIFO])
+    if name == "routers":
+        return ciw.create_network(
+            arrival_distributions=[D.Exponential(3.0), None, None, None],
+            service_distributions=[D.Exponential(6.0), D.Exponential(2.0), D.Exponential(2.5), D.Exponential(4.0)],
+            number_of_servers=[1, 1, 2, 1],
+            queue_capacities=[float("inf"), 1, 2, float("inf")],
+            routing=R.NetworkRouting(routers=[R.JoinShortestQueue(destinations=[2, 3], tie_break="random"),
+                                              R.LoadBalancing(destinations=[3, 4], tie_break="order"),
+                                              R.Probabilistic(destinations=[4, 1], probs=[0.4, 0.2]), R.Leave()]))
+    if name == "slotted_preempt":
+        return ciw.create_network(
+            arrival_distributions={"A": [D.Exponential(2.5)], "B": [D.Exponential(1.0)]},
+            service_distributions={"A": [D.Uniform(0.2, 1.4)], "B": [D.Uniform(0.1, 0.9)]},
+            number_of_servers=[ciw.Slotted(slots=[0.5, 1.0, 1.5], slot_sizes=[2, 1, 2], capacitated=True, preemption="resume", offset=0.25)],
+            priority_classes={"A": 1, "B": 0},
+            class_change_matrices=[{"A": {"A": 0.7, "B": 0.3}, "B": {"A": 0.0, "B": 1.0}}],
+            routing={"A": [[0.3]], "B": [[0.1]]})
+    if name == "preempt_sched":
+        return ciw.create_network(
+            arrival_distributions={"A": [D.Exponential(2.0), None], "B": [D.Exponential(1.0), None]},
+            service_distributions={"A": [D.Exponential(1.5), D.Exponential(3.0)], "B": [D.Exponential(3.0), D.Exponential(3.0)]},
+            number_of_servers=[ciw.Schedule(numbers_of_servers=[2, 1], shift_end_dates=[1.2, 2.0], preemption="restart", offset=0.3), 1],
+            priority_classes=({"A": 1, "B": 0}, ["resample", False]),
+            routing={"A": R.TransitionMatrix([[0.0, 0.7], [0.0, 0.0]]), "B": R.TransitionMatrix([[0.0, 0.4], [0.2, 0.0]])},
+            server_priority_functions=[lambda srv, ind: -srv.id_number, None],
+            system_capacity=6)
     if name == "from_dict":
         global _PARAMS
         if _PARAMS is None:
@@ -106,7 +132,7 @@ _PARAMS = None
 EXACT = {"exact_customers": 10, "exact_low": 4}      # exact-mode configurations (decimal context is process-global)
 BY_CUSTOMERS = {"exact_customers": 25}               # run with simulate_until_max_customers(n)
 
-CONFIGS = ["sequential", "cycle", "process", "schedules", "reneging", "intervals", "continuous", "empirical", "exact_customers", "exact_low", "from_dict"]
+CONFIGS = ["sequential", "cycle", "process", "schedules", "reneging", "intervals", "continuous", "empirical", "exact_customers", "exact_low", "from_dict", "routers", "slotted_preempt", "preempt_sched"]
 DETERMINISTIC = ["det-cycle", "det-sequential", "det-schedule"]
 
 
@@ -200,6 +226,16 @@ def reference(cfg, seed):
 
 
 def run_history(args):
+    try:
+        return _run_history(args)
+    except Exception as e:
+        import traceback
+        tb = traceback.format_exc().strip().splitlines()
+        return [("simulation_crashed", {"config": args[0], "history": list(args[2]), "mode": args[4],
+                                        "error": "%s: %s" % (type(e).__name__, str(e)[:100]), "where": tb[-3].strip()[:120]})], 1, "crash"
+
+
+def _run_history(args):
     """ops: tuple of operation names; then the probe.  Returns (violations, n_sims, digests)"""
     cfg, other, ops, seed, mode, ref = args
     ciw = _ciw()
@@ -228,7 +264,12 @@ def run_history(args):
                 live.append(Q)
         elif kind == "step_live":
             for Q in live:
-                Q.simulate_until_max_time(T * 0.75)
+                try:
+                    Q.simulate_until_max_time(T * 0.75)
+                except Exception as e:
+                    # a live simulation whose Network has meanwhile been used for another Simulation
+                    out.append(("interleaved_simulations_on_one_network_crash",
+                                {"config": cfg, "history": list(ops), "error": "%s: %s" % (type(e).__name__, str(e)[:100])}))
     ciw.seed(seed)
     N = net(cfg, mode)
     Q = new_sim(N, cfg)
